@@ -258,6 +258,7 @@ var c18Mods = map[string]string{
 	"i":  `def inc: "inc"; def f: "i.f";`,
 	"p":  `import "n" as b; def f: b::f;`,
 	"q":  `import "m" as a; import "p" as c; def r: [a::f, c::f, a::g];`,
+	"ar": `def f(a; b): 2; def f(a; b; c; d; e; g; h; i; j; k): 10; def f(a; b; c; d; e; g; h; i; j; k; l): 11; def f(a): 1; def e: 0; def f: 0;`,
 	"md": `module {version: 1, name: "md"}; import "n" as b {search: "./"}; include "i"; def z: 1; def a(x): 2; def a: 3;`,
 }
 
@@ -297,6 +298,7 @@ var c18Cases = []c18case{
 	{`import "m" as a; a::f(1;2)`, `!`},
 	{`"md" | modulemeta | [.version, .name, (.deps | length), .deps[0].as, .deps[0].is_data, .deps[1].relpath, .defs]`, `[1,"md",2,"b",false,"i",["a/0","a/1","z/0"]]`},
 	{`"m" | modulemeta | .defs`, `["f/0","f/1","g/0","k/0"]`},
+	{`"ar" | modulemeta | .defs`, `["e/0","f/0","f/1","f/2","f/10","f/11"]`},
 }
 
 // H_C18_ns: visibility rules and include-as-paste, through the in-memory loader.
